@@ -12,6 +12,7 @@ from .catalogue import ALL_BY_NAME, HDR
 
 PROPERTY = 'C02'
 
+SLACK = 2      # the statement's "small constant"
 OTHER_ROWS = [['a', 'z'], [1, 'p'], [2, 'q'], [2, 'r'], [3, 's']]
 SAME_ROWS = [list(HDR), [2, 20, 'z,w'], [5, 50, 'm,n']]
 EXT = [[7, 70, 'e,f'], [8, 80, 'g,h'], [9, 90, 'i,j']]
@@ -113,7 +114,9 @@ def lazy(sym, name, N, nsym):
             pulled, iters = src.pulls, max(src.iters, 1)
         # (b) rows of the source needed by definition for these output rows
         need = _need(lambda pre: _first_rows(make, kind, idx, pre, k), data, k, out)
-        check(pulled <= iters * (need + look),
+        # 'k plus a small constant': the catalogued look-ahead, and never less than SLACK rows, so that a
+        # behaviour-preserving change that reads a row or two ahead is not an alarm
+        check(pulled <= iters * (need + max(look, SLACK)),
               name + ': more source rows pulled than k outputs need (+ catalogued look-ahead)', k, out, pulled, need, look, iters)
 
 
@@ -142,7 +145,7 @@ def display(sym, fn, N):
     elif fn == 'islice-pipeline':
         t = petl.addfield(petl.convert(petl.select(src, lambda r: True), 'b', lambda v: v + 1), 'd', 0)
         s = list(itertools.islice(iter(t), limit + 1))
-    check(src.pulls <= limit + 1, fn + ': displaying `limit` rows pulled more than limit+1 source rows', n, limit, src.pulls)
+    check(src.pulls <= limit + SLACK, fn + ': displaying `limit` rows pulled more than limit + small constant source rows', n, limit, src.pulls)
 
 
 CHAIN = ['convert', 'replace', 'update', 'select-row', 'selectge', 'rowslice', 'sub', 'fillright', 'search-all', 'skipcomments',
@@ -169,7 +172,7 @@ def chain(sym, N, names):
         data = rows + [list(r) for r in EXT]
         need = _need(lambda pre: [_norm(r) for r in itertools.islice(iter(build([list(HDR)] + [list(r) for r in pre])), k)],
                      data, k, out)
-        check(pulled <= max(src.iters, 1) * (need + 1), 'chain: more source rows pulled than k outputs need', names, k, out,
+        check(pulled <= max(src.iters, 1) * (need + SLACK), 'chain: more source rows pulled than k outputs need', names, k, out,
               pulled, need)
 
 
@@ -185,8 +188,7 @@ OUTSIDE = ('byte-level read-ahead of file-backed extractors (buffered I/O reads 
            'the build side of hash joins (read completely by design)')
 STUBS = ['CountingSource on every input', 'PickleStub', 'private temp dir', 'ClockStub']
 ASSUMPTIONS = ['"rows needed by definition" for k outputs = the smallest source prefix on which the same real operator yields as many '
-               'rows (monotone for streaming operators)', 'look-ahead constants as catalogued (0 by default, 1 for *usingcontext, 2 for '
-               'merge-style presorted operators and the unpackdict sample)']
+               'rows (monotone for streaming operators)', 'the small constant of the statement is 2 rows per source iterator (or the catalogued look-ahead where larger)']
 RULE = 'One job per catalogue entry; source length, extension flag, k and key cells symbolic.'
 
 
